@@ -40,9 +40,18 @@ Record opobs := mkOO { o_ret : ret; o_qi : Z; o_qp : Z; o_seen : list goval; o_d
 (* [c_cfg2], [c_inst]: a second CachedConn / cache.Cache instance with its own options over the
    same nodes; the i-th operation is issued on it iff the i-th flag is true ([c_inst] shorter
    than [c_ops]: the remaining operations go to the first instance) *)
-Record case := mkCase
+Record wcase := mkCase
   { c_cfg : config; c_cfg2 : config; c_inst : list bool; c_str : bool; c_rows : table;
     c_ops : list op; c_obs : list opobs }.
+
+(* A case is a list of WORLDS: independent (database, Redis servers, instances) living in one
+   process - sharing go-zero's process-wide machinery, above all the cleaner's timing wheel -
+   and using the same key strings.  The executor interleaves their operations; every world's
+   history is that world's own operations plus the process-wide events (cleaner ticks, time) in
+   the order they happened, with the contents of ITS servers after each of them.  Each world is
+   compared with its own instance of the model and judged on its own: nothing that happens in
+   another world may show (ProofsE.worlds_are_independent). *)
+Definition case := list wcase.
 
 Definition pick (c1 c2 : config) (insts : list bool) : config :=
   match insts with true :: _ => c2 | _ => c1 end.
@@ -124,7 +133,7 @@ Fixpoint agrees_from (str : bool) (c1 c2 : config) (insts : list bool) (s : stat
   | _, _ => false
   end.
 
-Definition agrees (c : case) : bool :=
+Definition agrees1 (c : wcase) : bool :=
   agrees_from (c_str c) (c_cfg c) (c_cfg2 c) (c_inst c) (init (c_rows c)) (c_ops c) (c_obs c).
 
 Fixpoint model_trace (c1 c2 : config) (insts : list bool) (s : state) (ops : list op)
@@ -134,7 +143,11 @@ Fixpoint model_trace (c1 c2 : config) (insts : list bool) (s : state) (ops : lis
   | o :: ops' => let '(s', m) := step (pick c1 c2 insts) s o in
                  (m, sort_dump (dump s')) :: model_trace c1 c2 (tl insts) s' ops'
   end.
-Definition model_obs (c : case) := model_trace (c_cfg c) (c_cfg2 c) (c_inst c) (init (c_rows c)) (c_ops c).
+Definition agrees (c : case) : bool := forallb agrees1 c.
+
+Definition model_obs1 (c : wcase) := model_trace (c_cfg c) (c_cfg2 c) (c_inst c) (init (c_rows c)) (c_ops c).
+
+Definition model_obs (c : case) := map model_obs1 c.
 
 (* ------------------------------------------------------------------ the property *)
 Record rstate := mkR
@@ -422,9 +435,11 @@ Fixpoint check_from (c1 c2 : config) (insts : list bool) (f7 f11 : bool) (r : rs
   | _, _ => false
   end.
 
-Definition prop_gen (f7 f11 : bool) (c : case) : bool :=
+Definition prop_gen1 (f7 f11 : bool) (c : wcase) : bool :=
   check_from (c_cfg c) (c_cfg2 c) (c_inst c) f7 f11
              (mkR (c_rows c) false [] [] true [] (init (c_rows c))) (c_ops c) (c_obs c).
+
+Definition prop_gen (f7 f11 : bool) (c : case) : bool := forallb (prop_gen1 f7 f11) c.
 
 Definition prop_ok (c : case) : bool := prop_gen false false c.
 
@@ -447,5 +462,13 @@ Fixpoint first_fail (c1 c2 : config) (insts : list bool) (r : rstate) (ops : lis
   | _, _ => None
   end.
 
-Definition diagnose (c : case) : option (Z * list bool) :=
+Definition diagnose1 (c : wcase) : option (Z * list bool) :=
   first_fail (c_cfg c) (c_cfg2 c) (c_inst c) (mkR (c_rows c) false [] [] true [] (init (c_rows c))) (c_ops c) (c_obs c) 0.
+
+(* first failing world: (world, (operation index within that world's history, clauses)) *)
+Fixpoint diagnose_from (w : Z) (c : case) : option (Z * (Z * list bool)) :=
+  match c with
+  | [] => None
+  | x :: c' => match diagnose1 x with Some d => Some (w, d) | None => diagnose_from (w + 1) c' end
+  end.
+Definition diagnose (c : case) := diagnose_from 0 c.
